@@ -43,6 +43,12 @@ var cmapPauser atomic.Pointer[pauser]
 
 func init() {
 	h := func(point string) {
+		if g := cmapGate.Load(); g != nil && point == "acquire.missed" {
+			if i := int(g.n.Add(1)) - 1; i < len(g.chs) {
+				<-g.chs[i]
+			}
+			return
+		}
 		p := cmapPauser.Load()
 		if p == nil {
 			return
